@@ -75,3 +75,21 @@ def reader_state(reader) -> tuple:
     hunt = getattr(reader, "is_in_hunt_mode", None)
     esc = getattr(reader, "unescape_next", None)
     return (bool(hunt), None if esc is None else bool(esc))
+
+
+def trace_feed(kind: str, cfg, wire: bytes, cutspec: dict, limit: int = 300):
+    """Readable call-by-call trace for replay files: chunk, reader state, messages returned."""
+    reader = make_reader(kind, cfg)
+    pos = 0
+    for idx, chunk in enumerate(fragment.chunks(wire, cutspec)):
+        if idx >= limit:
+            yield f"... ({len(wire) - pos} more octets)"
+            return
+        try:
+            msgs = reader.read(chunk)
+            out = ", ".join(f"{type(m).__name__}[{len(m.as_bytes)}]{'' if m.is_valid else '!invalid'}" for m in msgs)
+        except Exception as ex:  # noqa: BLE001
+            out = f"RAISED {ex!r}"
+        head = chunk[:24].hex() + ("..." if len(chunk) > 24 else "")
+        yield f"read#{idx} @{pos} len={len(chunk)} {head} -> [{out}] state(hunt,esc)={reader_state(reader)}"
+        pos += len(chunk)
